@@ -446,7 +446,10 @@ def sample_positions(rng, text, region, n_pos):
             out.append(lc(rng.randint(m.start(), m.end())))
     dots = [m.end() for m in re.finditer(r'\w\.', text)]
     calls = [m.end() for m in re.finditer(r'\w\(|, ', text)]
-    for pool in (dots, calls):
+    # the end of the line after a line that leaves a call bracket open (multi-line call)
+    opened = [starts[i + 1] + rng.choice([0, len(lines[i + 1])]) for i in range(len(lines) - 1)
+              if lines[i].count('(') > lines[i].count(')') and re.search(r'\w\(', lines[i])]
+    for pool in (dots, calls, opened):
         if pool:
             out.append(lc(rng.choice(pool)))
     if text:
@@ -1277,14 +1280,17 @@ def gen_trace_session(rng, sid, corpus):
             l = st['text'].count('\n', 0, off) + 1
             c = off - (st['text'].rfind('\n', 0, off) + 1)
             qs += [('get_signatures', l, c)] * rng.choice([1, 2])
+            tl = st['text'].split('\n')
+            if l < len(tl) and rng.random() < 0.8:      # cursor on the line after the bracket
+                qs += [('get_signatures', l + 1, rng.choice([0, len(tl[l])]))] * rng.choice([1, 2])
         st['queries'] = qs
     return s, tracked
 
 
 MODEL_CFGS = {
     'real': 'real_config',
-    'textual-signature-key': '(mkConfig ByVersion SigTextual MemoPerScript 6)',
-    'path-keyed': '(mkConfig ByPath SigAsCoded MemoPerScript 6)',
+    'textual-signature-key': '(mkConfig ByVersion SigTextual MemoPerScript 6%N)',
+    'path-keyed': '(mkConfig ByPath SigAsCoded MemoPerScript 6%N)',
 }
 
 
